@@ -7,11 +7,12 @@ from .. import nodegen
 
 ID = "C11"
 SUITES = ["range", "table", "node"]
-LEAN_MODULES = ["VpnCloud.Proofs.C11", "VpnCloud.Proofs.C11Node", "VpnCloud.Proofs.TableRefine", "VpnCloud.Proofs.GuardsUsed"]
+LEAN_MODULES = ["VpnCloud.Proofs.C11", "VpnCloud.Proofs.C11Node", "VpnCloud.Proofs.TableRefine", "VpnCloud.Proofs.GuardsUsed", "VpnCloud.Proofs.C12More"]
 THEOREMS = ["VpnCloud.Proofs.C11." + n for n in ("matches_iff_prefix", "no_u8_overflow", "lookup_spec", "lookup_most_specific", "cache_lifetime")] + [
             "VpnCloud.Proofs.C11Node.unknown_dest_dropped", "VpnCloud.Proofs.C11Node.unknown_dest_flooded"]
 THEOREMS = THEOREMS + ["VpnCloud.Proofs.TableRefine." + n for n in ('table_refines', 'table_refines_abs', 'lookup_longest_live_prefix', 'live_after_sweep', 'cache_bounded', 'expired_claim_still_routes', 'expired_cache_still_used')]
 THEOREMS = THEOREMS + ["VpnCloud.Proofs.GuardsUsed." + n for n in ('cacheLive_boundary', 'claimLive_boundary')]
+THEOREMS = THEOREMS + ["VpnCloud.Proofs.C12More." + n for n in ('lookup_none_iff', 'router_drop_counts', 'flood_not_counted', 'unparseable_ignored')]
 BATCH = 200
 SEARCH_BUDGET_S = 300
 RULE = ("suite range: `match base/prefix addr` over the 8-bit universe (exhaustive in thorough), a 16-bit universe and random "
